@@ -22,7 +22,7 @@ def patches(prop):
     out = []
     for p in sorted(glob.glob(os.path.join(VERIF, "selftest", prop, "*.diff"))):
         out.append((os.path.basename(p), p, 0 if os.path.basename(p).startswith("benign_") else 1))
-    for d in sorted(glob.glob(os.path.join(VERIF, "seeded", prop + "*"))):
+    for d in sorted(glob.glob(os.path.join(VERIF, "seeded", "C*"))):
         meta = os.path.join(d, "meta.json")
         p = os.path.join(d, "patch.diff")
         if os.path.exists(p) and os.path.exists(meta):
